@@ -148,7 +148,7 @@ def search(seed=0, N=400):
 
 if __name__ == "__main__":
     seed = int(os.environ.get("VERIF_SEED", "0") or 0)
-    n, bad, seen = search(seed, 400 if "--thorough" not in sys.argv else 5000)
+    n, bad, seen = search(seed, 400 if "--thorough" not in sys.argv else 50000)
     out = {"status": "ok" if bad is None else "violation", "bound": "seeded templates of 1..5 documented constructs x 5 delimiter-free contexts (incl. falsy non-string values) + 3 contexts whose values contain constructs; includes to depth 3",
            "cases": n, "known_findings": list(seen.values())}
     if bad:
